@@ -20,7 +20,7 @@ META = {
 }
 
 NEEDED_TABLES = ["PARSER_CALL_GRAPH", "RECURSION_GUARD_SHAPE", "RANGE_LIMIT", "UNTRUSTED_SIZE_HINT_CAP", "MAX_EXPR_NESTING",
-                 "FMT_MAX_PRECISION", "FMT_MAX_WIDTH_IS_REPEAT_LIMIT", "MAX_REPEATED_STRING_LEN", "MAX_RECURSION_PARSER", "NEST_PROTOCOL", "MERGESEQ_MAX_DEPTH"]
+                 "FMT_MAX_PRECISION", "FMT_MAX_WIDTH_IS_REPEAT_LIMIT", "MAX_REPEATED_STRING_LEN", "MAX_RECURSION_PARSER", "NEST_PROTOCOL", "MERGESEQ_MAX_DEPTH", "MAX_LOCALS", "VM_LOCAL_SLOTS"]
 
 
 TRIVIAL_ERRORS = ("TooManyArguments", "UnknownTest", "UnknownFilter", "UnknownFunction")
